@@ -46,6 +46,10 @@ pub struct ListDesc {
     /// the reference count stays 1) instead of holding clones
     #[serde(default)]
     pub by_ref: bool,
+    /// concurrent runs only: which of the initial lists are made by a script (`[]` and script-side
+    /// pushes: the element vtable a script makes has no clone function for plain data)
+    #[serde(default)]
+    pub script_made: Vec<bool>,
     /// recorded schedule (tid chosen at every decision); present = replay literally
     #[serde(default)]
     pub schedule: Option<Vec<u8>>,
@@ -195,9 +199,27 @@ fn hot(len: usize) -> (usize, usize) {
 pub fn generate_c16(run_seed: u64, thorough: bool) -> ListDesc {
     let by_ref = rng::derive(run_seed, &[rng::label("by-ref")]) % 5 == 0;
     let mut r = Rng::new(rng::derive(run_seed, &[rng::label("workload")]));
-    let elem = elem_for(&mut r, false);
+    let mut elem = elem_for(&mut r, false);
+    // one run in fourteen: lists of lists (comparing elements takes the locks of inner lists
+    // while the lock of the outer list is held)
+    let mut xr = Rng::new(rng::derive(run_seed, &[rng::label("c16-extra")]));
+    let nested = xr.chance(1, 14);
+    let mut inner_init: Vec<Vec<MVal>> = Vec::new();
+    if nested {
+        elem = ElemKind::Nested;
+        for k in 0..2 + xr.below(3) {
+            let mut v = vec![MVal::Int(INNER_TAG + k)];
+            for j in 0..xr.below(3) {
+                v.push(MVal::Int(10 * k + j));
+            }
+            inner_init.push(v);
+        }
+    }
+    let n_inner = inner_init.len() as u64;
     let mut g = Gen { r: &mut r, elem, dups: false, next_val: 0, pool: vec![] };
+    let fresh = |g: &mut Gen| -> MVal { if nested { MVal::Ref(g.r.below(n_inner) as usize) } else { g.fresh() } };
     let nlists = 1 + g.r.weighted(&[50, 35, 15]);
+    let script_made: Vec<bool> = (0..nlists).map(|_| xr.chance(1, 3)).collect();
     let mut init = Vec::new();
     for _ in 0..nlists {
         // growth boundaries: capacity is 4/8/16/32 (8/16/32 for 1-byte elements); one list in
@@ -211,7 +233,7 @@ pub fn generate_c16(run_seed: u64, thorough: bool) -> ListDesc {
         } else {
             *g.r.pick(&[0usize, 1, 3, 4, 4, 4, 7, 8, 8, 2])
         };
-        let v: Vec<MVal> = (0..len).map(|_| g.fresh()).collect();
+        let v: Vec<MVal> = (0..len).map(|_| fresh(&mut g)).collect();
         init.push(v);
     }
     let nthreads = if thorough { 2 + g.r.weighted(&[50, 35, 15]) } else { 2 + g.r.weighted(&[65, 35]) };
@@ -258,7 +280,7 @@ pub fn generate_c16(run_seed: u64, thorough: bool) -> ListDesc {
                 0 => Op::Get { h, i: idx(&mut g) },
                 1 => {
                     lens[lid] += 1;
-                    Op::Push { h, v: g.fresh() }
+                    Op::Push { h, v: fresh(&mut g) }
                 }
                 2 => Op::Len { h },
                 3 => {
@@ -283,6 +305,8 @@ pub fn generate_c16(run_seed: u64, thorough: bool) -> ListDesc {
                         init[lid][if g.r.chance(1, 2) { hf } else { hb }].clone()
                     } else if !init[lid].is_empty() && g.r.chance(2, 3) {
                         g.r.pick(&init[lid]).clone()
+                    } else if nested {
+                        fresh(&mut g)
                     } else {
                         g.known()
                     };
@@ -319,6 +343,9 @@ pub fn generate_c16(run_seed: u64, thorough: bool) -> ListDesc {
                     if elem == ElemKind::U64 {
                         origin = Origin::Script;
                         Op::ForSum { h }
+                    } else if elem == ElemKind::Str {
+                        origin = Origin::Script;
+                        Op::Join { h, sep: (*g.r.pick(&["", ",", "--"])).to_string() }
                     } else {
                         Op::Get { h, i: idx(&mut g) }
                     }
@@ -342,10 +369,11 @@ pub fn generate_c16(run_seed: u64, thorough: bool) -> ListDesc {
         strategy: strategy.name(),
         sched_seed: rng::derive(run_seed, &[rng::label("schedule")]),
         init,
-        inner_init: vec![],
+        inner_init,
         threads,
         faults: vec![],
         by_ref,
+        script_made,
         schedule: None,
     }
 }
@@ -577,6 +605,7 @@ pub fn generate_c15(run_seed: u64, thorough: bool, faults: bool) -> ListDesc {
         threads: vec![ThreadPlan { slots: vec![None; nslots], ops }],
         faults: fl,
         by_ref: false,
+        script_made: vec![],
         schedule: None,
     }
 }
@@ -617,6 +646,7 @@ fn lop_of(op: &Op, ids: &[Option<usize>]) -> Option<LOp> {
         Op::Eq { a, b, ne } => LOp::Eq { a: id(a)?, b: id(b)?, ne: *ne },
         Op::ForCount { h } => LOp::ForCount { l: id(h)? },
         Op::ForSum { h } => LOp::ForSum { l: id(h)? },
+        Op::Join { h, sep } => LOp::Join { l: id(h)?, sep: sep.clone() },
         Op::CloneH { .. } | Op::DropH { .. } => LOp::Nop,
         _ => return None,
     })
@@ -672,13 +702,14 @@ where
     let sequential = d.property == "C15";
     let mut res = RunResult::default();
 
+    let fns = E::fns(w);
     // ---- setup (allocations of the code under test: RUN mode)
     let mut inner = Inner::default();
     let mut shared: Vec<List<E>> = Vec::new();
     let mut heap0 = Heap::default();
     {
         let _rg = alloc::ModeGuard::new(alloc::MODE_RUN);
-        if sequential {
+        {
             for (k, v) in d.inner_init.iter().enumerate() {
                 let l = List::<u64>::new();
                 for x in v {
@@ -690,17 +721,27 @@ where
                 heap0.new_list(v.clone());
             }
         }
-        for v in &d.init {
-            let l = List::<E>::new();
-            for x in v {
-                l.push(E::from_m(x, &inner));
-            }
+        for (i, v) in d.init.iter().enumerate() {
+            let l = if !sequential && d.script_made.get(i).copied().unwrap_or(false) {
+                let l = fns.new.call();
+                for x in v {
+                    fns.push.call(l.clone(), E::from_m(x, &inner));
+                }
+                l
+            } else {
+                let l = List::<E>::new();
+                for x in v {
+                    l.push(E::from_m(x, &inner));
+                }
+                l
+            };
             shared.push(l);
             heap0.new_list(v.clone());
         }
     }
     let st0 = alloc_stats();
-    let fns = E::fns(w);
+    // model ids of the shared lists follow those of the inner lists
+    let id_base = d.inner_init.len();
     let history: Arc<Mutex<Vec<Event>>> = Arc::new(Mutex::new(Vec::new()));
     let seq_log: Arc<Mutex<Vec<serde_json::Value>>> = Arc::new(Mutex::new(Vec::new()));
     let mut bodies: Vec<sched::Body> = Vec::new();
@@ -718,7 +759,7 @@ where
             }
         };
         let borrowed: Vec<bool> = plan.slots.iter().map(|s| by_ref && s.is_some()).collect();
-        let ids: Vec<Option<usize>> = plan.slots.clone();
+        let ids: Vec<Option<usize>> = plan.slots.iter().map(|s| s.map(|i| i + id_base)).collect();
         let mut ex = Exec::<E> {
             slots,
             fns: fns.clone(),
